@@ -4,9 +4,12 @@
 import json, os, subprocess, sys, time
 V = os.path.dirname(os.path.dirname(os.path.abspath(__file__)))
 args = [a for a in sys.argv[1:] if not a.startswith("--")]
+only = [a.split("=", 1)[1] for a in sys.argv[1:] if a.startswith("--only=")]
 for pid in args:
     for sid in sorted(os.listdir(os.path.join(V, "seeded"))):
         if not sid.startswith(pid + "-"):
+            continue
+        if only and not any(o in sid for o in only):
             continue
         d = os.path.join(V, "seeded", sid)
         w = "/tmp/sw/" + sid
@@ -18,7 +21,7 @@ for pid in args:
                 print(sid, "PATCH DOES NOT APPLY", r.stderr[:200]); continue
             t0 = time.time()
             env = dict(os.environ, VERIF_REPO=w)
-            p = subprocess.run(["./check", pid], cwd=V, env=env, capture_output=True, text=True, timeout=3600)
+            p = subprocess.run(["./check", pid], cwd=V, env=env, capture_output=True, text=True, timeout=1500)
             lines = [l for l in p.stdout.splitlines() if l.startswith("VIOLATION") or l.startswith("KNOWN-FINDING")]
             viol = [l for l in lines if l.startswith("VIOLATION")]
             replay = None
@@ -36,5 +39,5 @@ for pid in args:
         finally:
             subprocess.run(["git", "-C", "/repo", "worktree", "remove", "--force", w], capture_output=True)
     # restore generated files / evidence from the real tree
-    p = subprocess.run(["./check", pid], cwd=V, capture_output=True, text=True, timeout=3600)
+    p = subprocess.run(["./check", pid], cwd=V, capture_output=True, text=True, timeout=1500)
     print(pid, "unchanged tree: exit=%d" % p.returncode)
